@@ -206,8 +206,13 @@ def handleRun (ws : List String) : String :=
                        metarMsg P.msa c3.flag (nWhich (c3.gids.getD [])) (c3.groups.getD []),
                        metarMsg P.msa c3.flag (nWhich (c3.lids.getD [])) (c3.layers.getD [])]
              if m == msgs then [] else [s!"NE messages impl={msgs} model={m}".replace " " "_" |>.replace "NE_" "NE "])
+    -- the high-cloud flag the property prescribes, computed from the accepted input (not the implementation's)
+    let wantFlag : Bool :=
+      match P.msa with
+      | none => false
+      | some m => decide ((((rows.filter fun h => match h.height with | some y => decide (y > m + P.msaBuf) | none => false).length : Nat) : Rat) > P.t0)
     let perTable (t : Table) (ids : List Int) (msg : String) : List String :=
-      Spec.c01 P.msa t msg ++ Spec.c02 P.msa flag t msg ++ Spec.c03 P.t0 P.t8 data ids t ++ Spec.c04 data ids t
+      Spec.c01 P.msa t msg ++ Spec.c02 P.msa wantFlag t msg ++ Spec.c03 P.t0 P.t8 data ids t ++ Spec.c04 data ids t
     let spec : List String :=
       (Spec.c05 P.toPrms o ++ Spec.c06 P.toPrms o ++ Spec.c07 P.toPrms o ++
        perTable tS sids (msgs.getD 0 "") ++ perTable tG gids (msgs.getD 1 "") ++ perTable tL lids (msgs.getD 2 "")).map
